@@ -23,8 +23,8 @@ impl Prop for C11 {
     fn fuzz_decode(bytes: &[u8]) -> Option<Case> {
         crate::fuzzdec::c11(bytes)
     }
-    const RULE: &'static str = "code-point mode: arbitrary Unicode strings from fragment pools (every White_Space code point, CRLF, NBSP, ideographic space, zero-width non-spaces, combining marks, hazards, fully random strings); grapheme mode: segmentation-stable strings built from the closed cluster pool and whitespace fragments (asserting), arbitrary strings for totality. Oracle: clean(s) == s.split_whitespace().join(\" \") (std as the independent model) and its consequences, idempotence, word_boundaries against an independent scan over the character sequence, remove/full against filtered joins. Non-trivial: >= 2 whitespace runs one of which contains a non-ASCII whitespace or CRLF, and a multi-byte non-whitespace character. Distinct = distinct serialised case.";
-    const ESSENTIAL: &'static [&'static str] = &["graphemes_stable", "code_points", "leading_ws", "trailing_ws", "non_ascii_ws", "crlf", "empty", "only_ws", "unstable_totality"];
+    const RULE: &'static str = "code-point mode: arbitrary Unicode strings from fragment pools (every White_Space code point, CRLF, NBSP, ideographic space, zero-width non-spaces, combining marks, hazards, fully random strings); grapheme mode: segmentation-stable strings built from the closed cluster pool and whitespace fragments (asserting), arbitrary strings: those in which no cluster mixes whitespace with non-whitespace code points assert every clause that does not re-segment an output (normal form, word_boundaries, remove, full), the rest run for totality. Oracle: clean(s) == s.split_whitespace().join(\" \") (std as the independent model) and its consequences, idempotence, word_boundaries against an independent scan over the character sequence, remove/full against filtered joins. Non-trivial: >= 2 whitespace runs one of which contains a non-ASCII whitespace or CRLF, and a multi-byte non-whitespace character. Distinct = distinct serialised case.";
+    const ESSENTIAL: &'static [&'static str] = &["graphemes_stable", "code_points", "leading_ws", "trailing_ws", "non_ascii_ws", "crlf", "empty", "only_ws", "unstable_totality", "unstable_mixed_free"];
 
     fn budget(tier: Tier) -> Budget {
         match tier {
@@ -37,7 +37,7 @@ impl Prop for C11 {
         any::<bool>()
             .prop_flat_map(|g| {
                 let t = if g {
-                    prop_oneof![12 => gen::stable_text(16), 3 => gen::text(10), 1 => gen::stable_text(120)].boxed()
+                    prop_oneof![12 => gen::stable_text(16), 2 => gen::text(10), 3 => gen::hazard_text(10), 1 => gen::stable_text(120)].boxed()
                 } else {
                     prop_oneof![15 => gen::text(14), 1 => gen::text(100)].boxed()
                 };
@@ -48,7 +48,7 @@ impl Prop for C11 {
 
     fn assumptions() -> Vec<String> {
         vec![
-            "grapheme mode: all assertions on segmentation-stable strings only (KF1 is the recorded finding outside); unstable strings are still run for totality".into(),
+            "grapheme mode: all assertions on segmentation-stable strings; on unstable strings without a mixed cluster (inside the property's quantifier) everything except idempotence and the preserved cluster sequence, which re-segment the output (KF1 is the recorded finding there); strings with a mixed cluster are run for totality".into(),
             "std::str::split_whitespace (Unicode White_Space) is the reference for what a word is".into(),
         ]
     }
@@ -61,11 +61,23 @@ impl Prop for C11 {
         let wb = word_boundaries(s, g);
         let rem = remove(s, g);
         let ful = full(s, g);
-        if g && !strict && !gen::is_stable(s) {
+        // Grapheme mode outside the segmentation-stable domain: strings in which no cluster
+        // mixes whitespace with non-whitespace code points are still inside the property's
+        // quantifier. There the clauses that speak about `s` alone are asserted (normal form of
+        // clean(s), word boundaries, remove, full); the clauses that re-segment an *output*
+        // (idempotence, preserved cluster sequence) are where KF1 lives and are left out.
+        let mixed_free = gen::clusters(s, g).iter().all(|u| u.chars().all(char::is_whitespace) || !u.chars().any(char::is_whitespace));
+        let unstable = g && !strict && !gen::is_stable(s);
+        if unstable && !mixed_free {
             out.label("unstable_totality");
             return out;
         }
-        out.label(if g { "graphemes_stable" } else { "code_points" });
+        if unstable {
+            out.label("unstable_mixed_free");
+            out.label("kf1_class_excluded_from_resegmentation_clauses");
+        } else {
+            out.label(if g { "graphemes_stable" } else { "code_points" });
+        }
         out.label_if(s.is_empty(), "empty");
         out.label_if(!s.is_empty() && s.chars().all(char::is_whitespace), "only_ws");
         out.label_if(s.chars().next().is_some_and(char::is_whitespace), "leading_ws");
@@ -88,13 +100,19 @@ impl Prop for C11 {
         ensure!(out, cleaned == want, "clean({s:?}, graphemes={g}) = {cleaned:?}, expected {want:?}");
         ensure!(out, !cleaned.starts_with(char::is_whitespace) && !cleaned.ends_with(char::is_whitespace), "leading/trailing whitespace in {cleaned:?}");
         ensure!(out, !cleaned.chars().any(|ch| ch.is_whitespace() && ch != ' ') && !cleaned.contains("  "), "separator other than a single space in {cleaned:?}");
-        let again = clean(&cleaned, g);
-        ensure!(out, again == cleaned, "clean is not idempotent: {cleaned:?} -> {again:?}");
-        // sequence of non-whitespace characters preserved
         let units = |t: &str| -> Vec<String> {
             gen::clusters(t, g).into_iter().filter(|u| !u.chars().all(char::is_whitespace)).map(str::to_string).collect()
         };
-        ensure!(out, units(s) == units(&cleaned), "clean changed the sequence of non-whitespace characters of {s:?}");
+        if !unstable {
+            let again = clean(&cleaned, g);
+            ensure!(out, again == cleaned, "clean is not idempotent: {cleaned:?} -> {again:?}");
+            // sequence of non-whitespace characters preserved
+            ensure!(out, units(s) == units(&cleaned), "clean changed the sequence of non-whitespace characters of {s:?}");
+        } else {
+            // code-point level: always preserved
+            let cps = |t: &str| t.chars().filter(|ch| !ch.is_whitespace()).collect::<String>();
+            ensure!(out, cps(s) == cps(&cleaned), "clean changed the non-whitespace code points of {s:?}");
+        }
         // word boundaries: independent scan
         let cl = gen::clusters(s, g);
         let mut want_wb: Vec<(usize, usize)> = vec![];
